@@ -11,7 +11,8 @@
     the entry limit. *)
 From Coq Require Import ZArith NArith List Bool String.
 From AGH Require Import Base.Run Model.QLogFile Model.QLog Model.QLogCodec Proofs.QLog Proofs.QLogCursor Proofs.QLogCodec
-  Proofs.QLogCodecScan Proofs.QLogCodecDec Proofs.QLogCodecLoc Proofs.QLogFold Proofs.QLogCodecAll.
+  Proofs.QLogCodecScan Proofs.QLogCodecDec Proofs.QLogCodecLoc Proofs.QLogFold Proofs.QLogCodecAll
+  Model.QLogServe Proofs.QLogServe.
 Import ListNotations.
 Local Open Scope Z_scope.
 
@@ -432,3 +433,58 @@ Example C07_codec_roundtrip_example :
   has_bs (read_json_value (encode rich_entry) pQH) = true.
 Proof. exact (conj rich_entry_dom (conj (proj1 codec_roundtrip_example) (proj1 (proj2 codec_roundtrip_example)))). Qed.
 Print Assumptions C07_codec_roundtrip_example.
+
+(** ** API layer: "returned with the client it was recorded with", over
+    histories with requests and anonymisation changes in between
+    (Model/QLogServe.v). *)
+
+(** Serving a request never changes the log or its configuration: the state
+    after the request is the state before it, for every state (reachable or
+    not), every anonymiser and every request. *)
+Theorem C07_search_is_readonly : forall me bf t s q, fst (serve me bf t s q) = s.
+Proof. exact serve_readonly. Qed.
+Print Assumptions C07_search_is_readonly.
+
+(** Hence a request served anywhere in a history can be dropped from it, and
+    the log after a history is the log after its operations alone (requests
+    and switch changes erased). *)
+Theorem C07_served_request_erasable : forall me bf t c pre q post,
+  qrun me bf t c (pre ++ SServe q :: post) = qrun me bf t c (pre ++ post).
+Proof. exact serve_erasable. Qed.
+Print Assumptions C07_served_request_erasable.
+
+Theorem C07_requests_and_switch_erase : forall me bf t c ops,
+  st (qrun me bf t c ops) = run c (plain ops) /\ anon (qrun me bf t c ops) = anon_after false ops.
+Proof. exact (fun me bf t c ops => conj (qrun_erases me bf t c ops) (qrun_switch me bf t c ops)). Qed.
+Print Assumptions C07_requests_and_switch_erase.
+
+(** Whatever the parameters (cursor, paging, scan window, criteria), a search
+    returns only entries of the log (no well-formedness premise). *)
+Theorem C07_search_returns_log_entries : forall me bf s p es o,
+  search me bf s p = Ok es o -> forall e, In e es -> In e (flat s).
+Proof. exact search_In. Qed.
+Print Assumptions C07_search_returns_log_entries.
+
+(** After ANY history of operations, served requests and anonymisation
+    changes, every row of a response is an entry that an Add of the history
+    recorded, shown with exactly the address it was recorded with when the
+    switch is off at the time of the request, and with its mask when it is on:
+    earlier requests and earlier positions of the switch leave no trace. *)
+Theorem C07_client_as_recorded : forall me bf t c ops q rows old,
+  snd (serve me bf t (qrun me bf t c ops) q) = ROk rows old ->
+  forall i cl, In (i, cl) rows ->
+  exists e, (In (SOp (OAdd e)) ops \/ In (SOp (OAddAsync e)) ops) /\ i = e_id e /\
+            cl = if anon_after false ops then mask_of t (e_ip e) else e_ip e.
+Proof. exact client_as_recorded. Qed.
+Print Assumptions C07_client_as_recorded.
+
+(** The scenario: recorded with the switch off, switch on, one request served,
+    (switch off again,) another request. *)
+Example C07_toggle_example :
+  let h := [SOp (OAdd ex_entry); SAnon true; SServe ex_all] in
+  snd (serve max_entry_size buffer_size ex_tbl (qrun max_entry_size buffer_size ex_tbl ex_cfg h) ex_all)
+    = ROk [(1%N, ex_masked)] 1000 /\
+  snd (serve max_entry_size buffer_size ex_tbl (qrun max_entry_size buffer_size ex_tbl ex_cfg (h ++ [SAnon false])) ex_all)
+    = ROk [(1%N, ex_ip)] 1000.
+Proof. exact toggle_example. Qed.
+Print Assumptions C07_toggle_example.
